@@ -387,6 +387,25 @@ let dump (w : world) =
            pr "hub.hist %s %s %s %s %s %s %s %s %s\n" (sn i) (sn he.he_time) (sn he.he_bamt)
              (sn he.he_bapplied) (sn he.he_bwithdraw) (sn he.he_samt) (sn he.he_sapplied)
              (sn he.he_swithdraw) (b01 he.he_released)) h.h_hist;
+       (* hub.qhist: the model's AllHistory query, paged like the harness pages it (first four
+          pages, limits 2,3,2,3, cursor = last id of the previous page), with the default and with
+          the maximal limit; the alias fields are the bSei fields *)
+       let rec pages k start =
+         if k < 4 then begin
+           let lim = if k mod 2 = 0 then 2 else 3 in
+           let l = hub_query_history h start (Some (n_of_int lim)) in
+           List.iter (fun (i, he) ->
+               pr "hub.qhist %d %s %s %s %s\n" k (sn i) (sn he.he_bamt) (sn he.he_bapplied)
+                 (sn he.he_bwithdraw)) l;
+           if List.length l >= lim then
+             pages (k + 1) (Some (fst (List.nth l (List.length l - 1))))
+         end in
+       pages 0 None;
+       pr "hub.qhist.def%s\n"
+         (String.concat "" (List.map (fun (i, _) -> " " ^ sn i) (hub_query_history h None None)));
+       (let l = hub_query_history h None (Some (n_of_int 1000)) in
+        pr "hub.qhist.max %d %s\n" (List.length l)
+          (match List.rev l with [] -> "-" | (i, _) :: _ -> sn i));
        Array.iter (fun a ->
            let ws = user_waits h a in
            let ws = List.map (fun (b, x) -> (z_of_n b, x)) ws in
